@@ -9,6 +9,7 @@ from fractions import Fraction
 import numpy as np
 
 warnings.filterwarnings("ignore")
+sys.set_int_max_str_digits(0)          # exact rationals of long series have numerators beyond 4300 digits
 from hdc.algo.ops import ws2d as ws2d_mod  # noqa: E402
 from hdc.algo.ops.ws2d import ws2d  # noqa: E402
 
